@@ -13,6 +13,29 @@ use vcommon::{Args, SubResult};
 
 static IN_HOT_RELOAD: AtomicUsize = AtomicUsize::new(0);
 
+/// two-word self-checking value whose `Clone` has a scheduling point between its halves: a copy
+/// made without the read lock held (e.g. `Handle::cloned` dropping its guard too early) can tear
+pub struct W {
+    a: i64,
+    b: i64,
+}
+impl From<i64> for W {
+    fn from(v: i64) -> W {
+        W { a: v, b: v }
+    }
+}
+impl Clone for W {
+    fn clone(&self) -> W {
+        let a = self.a;
+        ds::yield_now("clone-mid");
+        W { a, b: self.b }
+    }
+}
+impl assets_manager::Asset for W {
+    const EXTENSION: &'static str = "l";
+    type Loader = assets_manager::loader::LoadFrom<i64, assets_manager::loader::ParseLoader>;
+}
+
 pub fn mk_window(p: &Value) -> Arc<Mk> {
     let callers = p["callers"].as_u64().unwrap() as usize;
     let calls = p["calls"].as_u64().unwrap_or(1) as usize;
@@ -30,6 +53,7 @@ pub fn mk_window(p: &Value) -> Arc<Mk> {
             let cache = Arc::new(AssetCache::with_source(m.clone()));
             ds::adopt(1, "reloader");
             let h = cache.load::<L>("k").unwrap();
+            let _ = cache.load::<W>("k").unwrap();
             let hp = h as *const assets_manager::Handle<L> as usize;
             ds::quiesce();
             if pre_event {
@@ -76,6 +100,17 @@ pub fn mk_window(p: &Value) -> Arc<Mk> {
                 let mode = reader.clone();
                 hs.push(ds::spawn("reader", move || {
                     let h = c.get_cached::<L>("k").unwrap();
+                    if mode == "cloned" {
+                        // the convenience readers must be as isolated as a guard
+                        let hw = c.get_cached::<W>("k").unwrap();
+                        for _ in 0..2 {
+                            let w = hw.cloned();
+                            if w.a != w.b {
+                                ds::log(format!("GUARD-BROKEN torn clone {} / {}", w.a, w.b));
+                            }
+                        }
+                        return;
+                    }
                     for _ in 0..2 {
                         if mode == "mapped" {
                             let g = assets_manager::AssetReadGuard::map(h.read(), |l| &l.v);
@@ -128,7 +163,7 @@ pub fn run(args: &Args) -> SubResult {
     for callers in 1..=2usize {
         for calls in 1..=(if thorough { 2 } else { 1 }) {
             for notifs in 0..=2usize {
-                for reader in ["none", "plain", "mapped"] {
+                for reader in ["none", "plain", "mapped", "cloned"] {
                     for pre in [false, true] {
                         if notifs == 0 && !pre {
                             continue;
@@ -148,7 +183,7 @@ pub fn run(args: &Args) -> SubResult {
             }
         }
     }
-    res.bound = format!("{} configurations: 1–2 hot_reload callers (x1–2 calls), notifier with 0–2 edit+event bursts, an event taken in before the calls or not, reader holding a plain / mapped guard across a yield; preemption bound {bound}; both Select::ready choices; both reader-admission policies", cases.len());
+    res.bound = format!("{} configurations: 1–2 hot_reload callers (x1–2 calls), notifier with 0–2 edit+event bursts, an event taken in before the calls or not, reader holding a plain / mapped guard across a yield or using Handle::cloned on a value whose Clone yields between its halves; preemption bound {bound}; both Select::ready choices; both reader-admission policies", cases.len());
     res.rule = "every schedule within the bound; a monitor evaluated at every scheduling decision asserts that the handle's reload id changes only while >= 1 thread is inside hot_reload; readers assert value and id are pinned while a guard is held; distinct = distinct (config, observation log)".into();
     let max_exec = if thorough { 300_000 } else { 8_000 };
     let total = cases.len();
